@@ -80,20 +80,27 @@ Proof.
   rewrite dispatch_S, spec_slot. cbn [run_cached]. rewrite spec_build. exact IH.
 Qed.
 
-(* --- known finding C14/dialect-call-before-default-compile ------------------------------------------------ *)
-(* K0 plain, K1(p: K0) with ADD_DIALECT_SUPPORT: lazy K1, FIRST call with a dialect *)
+(* --- fixed by 28d8957 (was: known finding C14/dialect-call-before-default-compile) --------------------------- *)
+(* K0 plain, K1(p: K0) with ADD_DIALECT_SUPPORT: lazy K1, FIRST call with a dialect: the nested class is now
+   compiled on demand for its DEFAULT method, so the first call answers like the eager twin (general statement:
+   LazyProofs.no_cache_attribute_error + history_partial) *)
 Definition F_dial (lazy: bool) : fam := [CD false false [] []; CD lazy true [(0, 0)] [FD 0 0]].
 Definition h_dial : list op := [Define 0; Define 1; Call 1 to_dict (Some 1) (V [(0, V [])])].
 
-Example dialect_first_raises :
-  nth_error (run (F_dial true) true FUEL st0 h_dial) 2 = Some (Exc EAttrCache) /\
-  nth_error (run (F_dial false) true FUEL st0 h_dial) 2 =
+Example dialect_first_agrees :
+  nth_error (run (F_dial true) true FUEL st0 h_dial) 2 =
     Some (Out (Node 1 to_dict (Some 1) [Node 0 to_dict None []])) /\
-  (* ... and after a plain to_dict() the very same call answers: the outcome depends on the history *)
-  nth_error (run (F_dial true) true FUEL st0
-               [Define 0; Define 1; Call 1 to_dict None (V [(0, V [])]); Call 1 to_dict (Some 1) (V [(0, V [])])]) 3 =
-    Some (Out (Node 1 to_dict (Some 1) [Node 0 to_dict None []])).
-Proof. repeat split; vm_compute; reflexivity. Qed.
+  run (F_dial true) true FUEL st0 h_dial = run (F_dial false) true FUEL st0 h_dial.
+Proof. split; vm_compute; reflexivity. Qed.
+
+(* --- known finding C14/dialect-first-call-on-self-referencing-class (residue of 28d8957) ---------------------- *)
+(* K0(MessagePack mixin, ADD_DIALECT_SUPPORT, ks: List[K0]): the dialect-specific builder skips the self position *)
+Definition F_self : fam := [CD false true [(0, 0); (1, 1)] [FD 0 0]].
+Example dialect_first_selfref_raises :
+  nth_error (run F_self true FUEL st0 [Define 0; Call 0 to_msgpack (Some 1) (V [(0, V [])])]) 1 = Some (Exc EAttrMeth) /\
+  nth_error (run F_self true FUEL st0 [Define 0; Call 0 to_msgpack None (V [(0, V [])]); Call 0 to_msgpack (Some 1) (V [(0, V [])])]) 2 =
+    Some (Out (Node 0 (MN true 1 false 0) (Some 1) [Node 0 (MN true 1 false 0) (Some 1) []])).
+Proof. split; vm_compute; reflexivity. Qed.
 
 (* --- known finding C14/ondemand-build-cycle ----------------------------------------------------------------- *)
 (* K0(MessagePack mixin, b: Optional[K1]), K1 plain (a: Optional[K0]) *)
@@ -118,13 +125,13 @@ Definition history_full : Prop :=
 Theorem history_refuted : ~ history_full.
 Proof.
   intros H.
-  specialize (H (F_dial true) (F_dial false) [Define 0; Define 1] [Define 0; Define 1]
-                [Call 1 to_dict (Some 1) (V [(0, V [])])] FUEL).
-  assert (S: same_shape (F_dial true) (F_dial false)).
+  specialize (H (F_cyc false) (F_cyc true) [Define 0; Define 1] [Define 0; Define 1]
+                [Call 0 to_msgpack None (V [])] FUEL).
+  assert (S: same_shape (F_cyc false) (F_cyc true)).
   { intros [|[|c]]; split; reflexivity. }
   specialize (H S).
   assert (L: 2 <= FUEL) by (unfold FUEL; lia). specialize (H L).
-  assert (C: forall o, In o [Call 1 to_dict (Some 1) (V [(0, V [])])] ->
+  assert (C: forall o, In o [Call 0 to_msgpack None (V [])] ->
                        match o with Call _ _ _ _ => True | Define _ => False end).
   { intros o [<-|[]]. exact I. }
   specialize (H C). vm_compute in H. discriminate.
